@@ -6,6 +6,8 @@ Domain   base programs (one fixed rich base + Hypothesis-drawn G-PROG programs) 
          break/continue/return at every position where CPython refuses them; a second star in
          every tuple/list target.
 Oracle   convert_code_string raises an Exception under every configuration. Nothing is executed.
+         Effect-survival stage: supported one-expression statements with an observable effect;
+         trace and final exception type of the converted program equal the source's.
 """
 import ast
 import copy
@@ -22,7 +24,12 @@ RULE = ("for each base program the injector enumerates every index of every body
         "adds a second star to every tuple/list target. Base programs: one fixed base with every "
         "placement (module, function, class, def/class in a loop, loop else, nested expression) "
         "plus Hypothesis-drawn generated programs. Non-trivial: injection at nesting depth >= 1 "
-        "or expression-level; distinct by (construct, position path, base).")
+        "or expression-level; distinct by (construct, position path, base). Last sentence of the "
+        "property: 29 expression statements that look inert but have a run-time effect (logged "
+        "attribute/item reads, probe calls in every expression form, the exception CPython raises for "
+        "an undefined name, a missing attribute or key, a division by zero) x 14 placements x 8 "
+        "configurations: the converted program must show the same trace and end with the same "
+        "exception type (a refusal is allowed).")
 
 BASE = '''
 import math
@@ -381,6 +388,123 @@ def _gen_shard(item):
     return part
 
 
+# ------------------------------------------------------------------ nothing with an effect is dropped
+
+# the last sentence of the property: statements that look like they do nothing, but have a
+# run-time effect (a logged attribute or item read, a probe call, or the exception CPython raises)
+EFFECT_PRE = "o = OBJ('o')\no.a = 1\nb = BOX('b', {'k': 1})\n"
+EFFECT_STMTS = [
+    ("bare-attribute", "o.a", None),
+    ("bare-attribute-chain", "o.a.real", None),
+    ("bare-missing-attribute", "o.zz", "AttributeError"),
+    ("bare-subscript", "b['k']", None),
+    ("bare-missing-key", "b['zz']", "KeyError"),
+    ("bare-undefined-name", "undefined_q", "NameError"),
+    ("bare-defined-name", "o", None),
+    ("bare-call", "M(7)", None),
+    ("bare-tuple", "M(7), M(8)", None),
+    ("bare-parenthesised-call", "(M(7))", None),
+    ("bare-conditional", "M(7) if C(8) else M(9)", None),
+    ("bare-boolop", "C(7) and M(8) or M(9)", None),
+    ("bare-compare", "P(7, 1) < P(8, 2)", None),
+    ("bare-unary", "-P(7, 1)", None),
+    ("bare-not", "not P(7, 1)", None),
+    ("bare-binop", "P(7, 1) + P(8, 2)", None),
+    ("bare-division-by-zero", "1 / P(7, 0)", "ZeroDivisionError"),
+    ("bare-fstring", "f'{P(7, 1)}'", None),
+    ("bare-list", "[P(7)]", None),
+    ("bare-dict", "{P(7, 1): P(8)}", None),
+    ("bare-set", "{P(7, 1)}", None),
+    ("bare-comprehension", "[P(7, i) for i in P(8, [1, 2])]", None),
+    ("bare-generator-expression", "(P(7, i) for i in P(8, [1]))", None),
+    ("bare-lambda-call", "(lambda: P(7))()", None),
+    ("bare-walrus", "(w := P(7, 1))", None),
+    ("bare-attribute-of-call", "P(7, o).a", None),
+    ("bare-constant", "'text'", None),
+    ("bare-ellipsis", "...", None),
+    ("bare-await-free-call-chain", "P(7, o).a.real.bit_length()", None),
+]
+EFFECT_PLACES = {
+    "module": "M(1)\n{S}\nM(2)\n",
+    "module-first": "{S}\nM(2)\n",
+    "function": "def FF():\n    M(1)\n    {S}\n    M(2)\nFF()\nM(3)\n",
+    "function-only-statement": "def FF():\n    {S}\nFF()\nM(3)\n",
+    "function-after-docstring": "def FF():\n    'doc'\n    {S}\n    return M(2)\nFF()\n",
+    "class": "class KK:\n    M(1)\n    {S}\n    M(2)\nM(3)\n",
+    "class-only-statement": "class KK:\n    {S}\nM(3)\n",
+    "method": "class KK:\n    def mm(self):\n        {S}\n        M(2)\nKK().mm()\nM(3)\n",
+    "if-taken": "if C(1):\n    {S}\nelse:\n    M(2)\nM(3)\n",
+    "else-taken": "if not C(1):\n    M(2)\nelse:\n    {S}\nM(3)\n",
+    "for-body": "for q in IT(1):\n    {S}\nM(3)\n",
+    "for-body-with-break": "for q in IT(1):\n    {S}\n    if C(2):\n        break\nelse:\n    {S}\nM(3)\n",
+    "while-body": "n = [0]\nwhile n[0] < 2:\n    n[0] += 1\n    {S}\nelse:\n    {S}\nM(3)\n",
+    "function-in-loop-return": "def FF():\n    for q in IT(1):\n        {S}\n        return M(2)\nFF()\nM(3)\n",
+}
+
+
+def effect_program(stmt, place):
+    t = EFFECT_PLACES[place]
+    lines = []
+    for l in t.split("\n"):
+        if "{S}" in l:
+            lines.append(l.replace("{S}", stmt))
+        else:
+            lines.append(l)
+    return EFFECT_PRE + "\n".join(lines)
+
+
+def effect_diffs(src, cfg, expect_err):
+    """[] when the effect survives (or the program is refused); the differences otherwise"""
+    from ..kit import Kit, run_code
+    o = run_code(src, "exec", Kit(), want_globals=False)
+    if o["err"] != expect_err:
+        raise env.HarnessError("effect program: the original ends with %r, expected %r\n%s" % (o["err"], expect_err, src))
+    try:
+        text = env.convert(src, cfg, 0)
+    except Exception:
+        return None      # refused: allowed by this property
+    c = run_code(text, "eval", Kit(), want_globals=False)
+    d = []
+    if c["err"] != o["err"]:
+        d.append("the source ends with %s, the converted program with %s %s" % (o["err"] or "no exception", c["err"] or "no exception", c["errmsg"][:120]))
+    if c["log"] != o["log"]:
+        from ..kit import _first_diff
+        d.append("trace differs at %s" % (_first_diff(o["log"], c["log"]),))
+    return d
+
+
+def _effect_shard(item):
+    shard, nshards = item
+    part = new_part()
+    cases = [(n, st, err, pl) for (n, st, err) in EFFECT_STMTS for pl in sorted(EFFECT_PLACES)]
+    for k in range(shard, len(cases), nshards):
+        name, stmt, err, place = cases[k]
+        src = effect_program(stmt, place)
+        try:
+            compile(src, "<effect>", "exec")
+        except SyntaxError as e:
+            raise env.HarnessError("effect program does not compile: %s\n%s" % (e, src))
+        part["evaluations"] += 1
+        part["classes"]["effect:" + name] += 1
+        part["classes"]["effect-place:" + place] += 1
+        if name not in ("bare-constant", "bare-ellipsis", "bare-defined-name"):
+            part["nontrivial"].add(key_hash("effect", name, place))
+        for cfg in env.ALL_CFGS:
+            d = effect_diffs(src, cfg, err)
+            if d is None:
+                part["classes"]["effect-program-refused"] += 1
+                continue
+            if d:
+                if len(part["violations"]) < 3:
+                    part["violations"].append({
+                        "payload": {"kind": "effect", "src": src, "cfg": list(cfg), "err": err},
+                        "diffs": d,
+                        "what": "a statement with a run-time effect (%s, %s) is dropped or changed and conversion reports success (%s)"
+                                % (name, place, env.cfg_name(cfg))})
+                break
+    return part
+
+
 def run(report):
     quick = report.tier == "quick"
     report.rule = RULE
@@ -392,6 +516,7 @@ def run(report):
     per = 4 if quick else 120
     items += [(_gen_shard, (env.sub_seed(report.seed, "C08", i), per, 3 if quick else 1, switches))
               for i in range(env.NPROC)]
+    items += [(_effect_shard, (i, 8)) for i in range(8)]
     for part in env.pmap(_call, items):
         report.absorb(part)
     report.exhaustive = True
@@ -399,7 +524,8 @@ def run(report):
                         "(all statement positions; expression positions with the stated stride); "
                         "base programs themselves are sampled")
     report.assumptions += ["ast.unparse prints the mutated module faithfully (each injected source is re-parsed)",
-                           "any Exception counts as rejection; nothing is executed"]
+                           "any Exception counts as rejection; the injection stages execute nothing",
+                           "effect-survival stage: a probe/log entry or the final exception type stands for the run-time effect"]
 
 
 def _call(item):
@@ -408,4 +534,6 @@ def _call(item):
 
 
 def replay(payload):
-    raise env.HarnessError("C08 payloads are of the generic kind 'reject'")
+    if payload.get("kind") == "effect":
+        return effect_diffs(payload["src"], tuple(payload["cfg"]), payload.get("err")) or []
+    raise env.HarnessError("C08 payloads are of the kinds 'reject' (generic) and 'effect'")
